@@ -21,6 +21,17 @@ class CallMixin:
                     else: raise Undecided('extend on symbolic list')
                 self.lv_set(f.value, new, p, e.lineno)
                 return self.finish_call(VNone(), p, target, e.lineno)
+        if isinstance(f, ast.Attribute) and f.attr == 'update':
+            recv = self.ev(f.value, p)
+            if isinstance(recv, VMap):
+                o = self.ev(e.args[0], p)
+                if not isinstance(o, VMap): raise Undecided('dict.update argument')
+                has = fresh('mhas', recv.has.sort()); val = fresh('mval', recv.val.sort()); a = fresh('ma', I); b = fresh('mb', I)
+                oh = z3.Select(z3.Select(o.has, a), b)
+                p.assume(z3.ForAll([a, b], z3.And(z3.Select(z3.Select(has, a), b) == z3.Or(oh, z3.Select(z3.Select(recv.has, a), b)),
+                                                  z3.Select(z3.Select(val, a), b) == z3.If(oh, z3.Select(z3.Select(o.val, a), b), z3.Select(z3.Select(recv.val, a), b)))))
+                self.lv_set(f.value, VMap(has, val), p, e.lineno)
+                return self.finish_call(VNone(), p, target, e.lineno)
         callee = self.resolve(e, p)
         if callee[0] == 'inline':
             _, fn, selfv = callee
@@ -36,7 +47,7 @@ class CallMixin:
 
     def finish_call(self, v, p, target, line):
         if target is None: pass
-        elif target == '__ret__': p.env['__ret__'] = v
+        elif isinstance(target, str): p.env[target] = v
         else: self.lv_set(target, v, p, line)
         return [('normal', p, None)]
 
@@ -492,4 +503,4 @@ class CallMixin:
 BUILTINS = {'sum', 'len', 'str', 'int', 'float', 'max', 'min', 'abs', 'pow', 'isinstance', 'hasattr', 'list', 'range', 'print'}
 SPECFUNS = {'prev', 'forall', 'exists', 'implies', 'ite', 'old', 'kind', 'value', 'Sum', 'Count', 'iff', 'forall2', 'tok',
             'select', 'has', 'attr', 'store_len', 'nu', 'Tot', 'alloc', 'real', 'SumR', 'opt_is_none', 'opt_val',
-            'printed_int', 'printed', 'status_code', 'has_text', 'ENUM_len', 'rec', 'joined', 'after', 'lam', 'is_list', 'is_int', 'py_int', 'py_head', 'py_tail', 'py_len', 'elems', 'pelems', 'dupfree', 'appended', 'lemma', 'ModelWF', 'unchanged', 'distinct_refs', 'Row', 'LL', 'PL'}
+            'map_has', 'map_get', 'attr_eq_old', 'printed_int', 'printed', 'status_code', 'has_text', 'ENUM_len', 'rec', 'joined', 'after', 'lam', 'is_list', 'is_int', 'py_int', 'py_head', 'py_tail', 'py_len', 'elems', 'pelems', 'dupfree', 'appended', 'lemma', 'ModelWF', 'unchanged', 'distinct_refs', 'Row', 'LL', 'PL'}
